@@ -200,6 +200,24 @@ class ChildrenList(list):
         node._parent = None
         node._has_constructor_parent = False
 
+    def _existing_position(self, index):
+        '''
+        :param int index: a (possibly negative) index of this list.
+
+        :returns: the equivalent non-negative position.
+        :rtype: int
+
+        :raises IndexError: if there is no item at the given index.
+
+        '''
+        positiveindex = index if index >= 0 else len(self) + index
+        if not 0 <= positiveindex < len(self):
+            raise IndexError(
+                f"Index {index} is out of range for the children of "
+                f"'{self._node_reference.coloured_name(False)}' (it has "
+                f"{len(self)}).")
+        return positiveindex
+
     def append(self, item):
         ''' Extends list append method with children node validation.
 
@@ -221,8 +239,12 @@ class ChildrenList(list):
         :type item: :py:class:`psyclone.psyir.nodes.Node`
 
         '''
+        if isinstance(index, int) and -len(self) <= index < 0:
+            # Validate against the final (non-negative) position.
+            index += len(self)
         self._validate_item(index, item)
         self._check_is_orphan(item)
+        # (This raises an IndexError if the index is out of range.)
         self._del_parent_link(self[index])
         super().__setitem__(index, item)
         self._set_parent_link(item)
@@ -236,7 +258,11 @@ class ChildrenList(list):
         :type item: :py:class:`psyclone.psyir.nodes.Node`
 
         '''
-        positiveindex = index if index >= 0 else len(self) - index
+        # Compute the position where list.insert() will place the item
+        # (negative indices count from the end and out-of-range indices
+        # are clamped).
+        positiveindex = index if index >= 0 else len(self) + index
+        positiveindex = max(0, min(positiveindex, len(self)))
         self._validate_item(positiveindex, item)
         self._check_is_orphan(item)
         # Check that all displaced items will still in valid positions
@@ -269,7 +295,7 @@ class ChildrenList(list):
         :param int index: position where to insert the item.
 
         '''
-        positiveindex = index if index >= 0 else len(self) - index
+        positiveindex = self._existing_position(index)
         for position in range(positiveindex + 1, len(self)):
             self._validate_item(position - 1, self[position])
         self._del_parent_link(self[index])
@@ -299,7 +325,7 @@ class ChildrenList(list):
         :rtype: :py:class:`psyclone.psyir.nodes.Node`
 
         '''
-        positiveindex = index if index >= 0 else len(self) - index
+        positiveindex = self._existing_position(index)
         # Check if displaced items after 'positiveindex' will still be valid
         for position in range(positiveindex + 1, len(self)):
             self._validate_item(position - 1, self[position])
